@@ -280,7 +280,7 @@ func main() {
 	pit := sp("2023-05-06T07:08:09.000123Z")
 
 	// 1. exhaustive small space: every collection size x page size x order, keys in a seeded permutation
-	maxN, maxSize := 12, 6
+	maxN, maxSize := 20, 7
 	if th {
 		maxN, maxSize = 40, 14
 	}
